@@ -10,14 +10,16 @@ pub use rng::Rng;
 
 use std::{
     panic::{self, AssertUnwindSafe},
-    sync::{Mutex, Once},
+    sync::Once,
 };
 
-static PANIC_MSG: Mutex<Option<String>> = Mutex::new(None);
 static HOOK: Once = Once::new();
 
 thread_local! {
     static CAPTURING: std::cell::Cell<bool> = const { std::cell::Cell::new(false) };
+    // per thread (the panic hook runs on the panicking thread), so that monitors which call
+    // `catch` from several threads at once get their own message and stable signatures
+    static PANIC_MSG: std::cell::RefCell<Option<String>> = const { std::cell::RefCell::new(None) };
 }
 
 /// Installs a panic hook that records `message @ file:line` for panics raised inside
@@ -38,9 +40,12 @@ pub fn install_panic_capture() {
                 .location()
                 .map(|l| format!("{}:{}", l.file(), l.line()))
                 .unwrap_or_default();
+            if capturing && std::env::var_os("VERIF_PANIC_VERBOSE").is_some() {
+                // debugging aid: show captured panics too
+                eprintln!("panic inside catch(): {msg} @ {loc}\n{}", std::backtrace::Backtrace::force_capture());
+            }
             if capturing {
-                *PANIC_MSG.lock().unwrap_or_else(|e| e.into_inner()) =
-                    Some(format!("{msg} @ {loc}"));
+                PANIC_MSG.with(|m| *m.borrow_mut() = Some(format!("{msg} @ {loc}")));
             } else {
                 prev(info);
             }
@@ -51,15 +56,14 @@ pub fn install_panic_capture() {
 /// Runs `f`, turning a panic into `Err("message @ file:line")`.
 pub fn catch<T>(f: impl FnOnce() -> T) -> Result<T, String> {
     install_panic_capture();
-    CAPTURING.with(|c| c.set(true));
+    // nestable: an inner `catch` must not switch capturing off for the rest of an outer one
+    let prev = CAPTURING.with(|c| c.replace(true));
     let r = panic::catch_unwind(AssertUnwindSafe(f));
-    CAPTURING.with(|c| c.set(false));
+    CAPTURING.with(|c| c.set(prev));
     match r {
         Ok(v) => Ok(v),
         Err(_) => Err(PANIC_MSG
-            .lock()
-            .unwrap_or_else(|e| e.into_inner())
-            .take()
+            .with(|m| m.borrow_mut().take())
             .unwrap_or_else(|| "<panic>".into())),
     }
 }
